@@ -94,6 +94,27 @@ claim("C06", "Coq proof (memory invariant; shared dictionary under every schedul
       "theorem gives that every memory answer equals the objective's value.",
       "DESIGN.md section 5, C06")
 
+claim("C20", "Coq proof (round-trip and batched=single theorems over all spaces) + exhaustive/differential correspondence of every Converter method",
+      "Theorems (Coq, closed): C20_position_roundtrip (any in-box position of a space with pairwise distinct values per dimension, "
+      "in ANY order, any number of dimensions), C20_value_roundtrip, C20_para_roundtrip, C20_batched_v2p / C20_batched_p2v (the "
+      "column-wise batched conversions equal the element-wise single ones), C20_memdict_frame_roundtrip (dict -> dataframe -> dict "
+      "returns the same keys and scores). Tied to /repo by six K-units calling the real Converter on every order of 1..4 distinct "
+      "values in 1-2 dims plus random spaces up to 5 dims x 50 values (positions incl. negative/out-of-range indices, member and "
+      "off-grid values, shuffled para dicts, frames with extra/shuffled columns and duplicate rows), evaluated against the model "
+      "inside Coq; the monitor performs the round trips on the implementation.",
+      TRUST + " Search-space values are numeric and exactly representable (dyadic) in the generated cases.",
+      "DESIGN.md section 5, C20")
+
+claim("C11", "Coq proof (frame -> dictionary exactness, memory invariant over an abstract optimizer) + differential correspondence",
+      "Theorems (Coq, closed): C11_frame_to_dict / C11_last_row_wins - a frame whose rows hold member values becomes exactly "
+      "{position -> score of the last such row} for dimensions in any order; C11_warm_rows_trusted - for every optimizer and "
+      "deterministic objective a position in that dictionary is never passed to the objective and its rows report the dictionary's "
+      "score, all other rows report objective(parameters). " + DRV + "K-units for dataframe2memory_dict / values2positions; D-unit "
+      "with frames of arbitrary subsets (scores deliberately different from the objective's), duplicates, extra/shuffled columns, "
+      "frames chained from the previous call's search_data, spaces ascending/descending/shuffled.",
+      TRUST + " Frame values are members of the search space (as the property states).",
+      "DESIGN.md section 5, C11")
+
 
 def main():
     props = [json.loads(l) for l in open(os.path.join(VERIF, "properties.jsonl"))]
